@@ -227,6 +227,20 @@ def run(out: Outcome) -> None:
             else:
                 xs += [1 if rng.random() < pr else 0 for _ in range(L)]
         check_rddm(out, p, xs, runners)
+    # long streams (thousands of updates): running error rates with step sizes 1/t far below any fixed floor, counters beyond 2^12,
+    # and RDDM with its DEFAULT concept sizes (min_concept_size=7000: the prediction queue wraps and an event rebuilds from 7000 stored values)
+    for cls in ("DDM", "EDDM", "ECDDWT"):
+        for _ in range(3 if thorough else 1):
+            p = gen.rand_params(rng, cls, small=False)
+            n_long = rng.randint(4300, 5200)
+            cut = rng.randint(n_long // 2, n_long - 300)
+            p0, p1 = rng.choice([0.03, 0.1, 0.25]), rng.choice([0.3, 0.5, 0.8])
+            check_spec(out, cls, p, [1 if rng.random() < p0 else 0 for _ in range(cut)] + [1 if rng.random() < p1 else 0 for _ in range(n_long - cut)], runners)
+    for _ in range(2 if thorough else 1):
+        n_long = rng.randint(7300, 8200)
+        xs = [1 if rng.random() < 0.08 else 0 for _ in range(n_long)] + [1 if rng.random() < 0.45 else 0 for _ in range(rng.randint(300, 700))]
+        xs += [1 if rng.random() < 0.1 else 0 for _ in range(rng.randint(200, 500))]
+        check_rddm(out, {}, xs, runners)
     corr.compare_batch(out, runners)
 
 
